@@ -411,6 +411,7 @@ func (ss *Package) messageProperties(parent RootSchema, src protoreflect.Message
 				JSONName:    string(field.JSONName()),
 				Description: commentDescription(field),
 				Schema:      arrayField,
+				Required:    ext.validate.GetRequired(),
 			}
 
 			properties = append(properties, prop)
@@ -466,6 +467,7 @@ func (ss *Package) messageProperties(parent RootSchema, src protoreflect.Message
 				Description: commentDescription(field),
 				Schema:      mapField,
 				Parent:      parent,
+				Required:    ext.validate.GetRequired(),
 			}
 			properties = append(properties, prop)
 			continue
